@@ -101,9 +101,18 @@ def verify_contract(ex: Exec, c: api.Contract):
             elif "raises_when" in c.methods:
                 ex.oblige("raises", truthy(ex.spec_eval(c, "raises_when", entry)), finfo.node.lineno,
                           note=f"{cls} raised outside the declared condition", label="raises.only_when")
+            _eff = c.opts.get("effects")
+            if _eff is not None:
+                _bad = [e for e in ex.run.effects if e[0] not in _eff]
+                if _bad:
+                    ex.oblige("frame", z3.BoolVal(False), finfo.node.lineno, note=f"undeclared effects {_bad}", label="frame.effects")
             for name in sorted(n for n in c.methods if n.startswith("on_raise") or n.startswith("at_exit")):
                 vals = dict(params)
                 vals["old"] = old
+                from .ty import lift as _lift0
+                vals["effects"] = _lift0(tuple(e[0] for e in ex.run.effects))  # effects performed on this path so far
+                from .ty import VList as _VL, Str as _Str
+                vals["written"] = _VL(_Str, items=list(getattr(ex.run, "written", [])))  # texts written to files, in order
                 from .ty import lift
                 vals["exc_class"] = lift(cls)
                 ety = c.opts.get("exc")
@@ -137,6 +146,9 @@ def verify_contract(ex: Exec, c: api.Contract):
         vals["result"] = ret
         from .ty import lift as _lift
         vals.setdefault("caught", _lift(tuple(getattr(ex.run, "caught", []))))  # classes swallowed by handlers on this path
+        vals.setdefault("effects", _lift(tuple(e[0] for e in ex.run.effects)))  # effects performed on this path
+        from .ty import VList as _VL, Str as _Str
+        vals.setdefault("written", _VL(_Str, items=list(getattr(ex.run, "written", []))))  # texts written to files, in order
         def lemma_term(mname):
             # instances of separately proved lemmas (each lemma is its own proof unit), evaluated as ONE term
             ex.lemma_using = 1
@@ -228,7 +240,7 @@ def _solver(timeout_ms):
     return s
 
 
-def discharge(ob: Obligation, timeout_ms=10000, use_cvc5=True):
+def discharge(ob: Obligation, timeout_ms=10000, use_cvc5=True, cross_check=False):
     """unsat(pc ∧ ¬goal) => discharged ; sat (validated) => refuted ; else unknown.
     Back ends in order: z3 5.1 (Python API, short first attempt), then on `unknown` the SMT-LIB dump goes to
     /usr/bin/z3 4.8.12 and to cvc5 1.0.3."""
@@ -281,8 +293,9 @@ def discharge(ob: Obligation, timeout_ms=10000, use_cvc5=True):
     else:
         ob.verdict = "unknown"
         why = (payload or {}).get("why", "hard timeout (solver ignored its limit)" if r == "hang" else "")
+    from .purify import purify
     s = _solver(first)
-    for c in assertions:
+    for c in purify(assertions):
         s.add(c)
     if ob.verdict == "unknown" and use_cvc5:
         try:
@@ -301,6 +314,16 @@ def discharge(ob: Obligation, timeout_ms=10000, use_cvc5=True):
                     break
     if ob.verdict == "unknown":
         ob.note += f" [z3: {why}]"
+    if cross_check and ob.verdict == "discharged" and ob.solver.startswith("z3"):
+        # thorough tier: a proof never rests on one solver's say-so (a z3 soundness bug was hit in this project)
+        try:
+            v = _cvc5(s.to_smt2(), min(timeout_ms, 20000))
+        except Exception:  # noqa
+            v = "unknown"
+        ob.cross = v
+        if v == "sat":
+            ob.verdict = "unknown"
+            ob.note += " [SOLVER-DISAGREEMENT: z3 says unsat, cvc5 says sat]"
     ob.ms = (time.time() - t0) * 1000
     return ob
 
